@@ -2,6 +2,7 @@ package families
 
 import (
 	"fmt"
+	"os"
 	"strings"
 
 	"github.com/NVIDIA/KAI-scheduler/pkg/scheduler/framework"
@@ -35,11 +36,17 @@ func (o *accountingObserver) SessionOpened(ssn *framework.Session) {
 	o.check(ssn, "session-open")
 	ssn.AddEventHandler(&framework.EventHandler{
 		AllocateFunc: func(e *framework.Event) {
+			if os.Getenv("VERIF_C14_TRACE") != "" {
+				fmt.Printf("  trace: allocate   %s status=%v node=%s groups=%v\n", e.Task.Name, e.Task.Status, e.Task.NodeName, e.Task.GPUGroups)
+			}
 			o.tr.OnAllocate(e.Task)
 			o.events++
 			o.check(ssn, "allocate-event("+e.Task.Name+")")
 		},
 		DeallocateFunc: func(e *framework.Event) {
+			if os.Getenv("VERIF_C14_TRACE") != "" {
+				fmt.Printf("  trace: deallocate %s status=%v node=%s groups=%v\n", e.Task.Name, e.Task.Status, e.Task.NodeName, e.Task.GPUGroups)
+			}
 			o.tr.OnDeallocate(e.Task)
 			o.events++
 			o.check(ssn, "deallocate-event("+e.Task.Name+")")
